@@ -463,8 +463,9 @@ KEPT_RULE = ("stage 3 (kept caches, kinds bdd/bcdd/zbdd, snapshot after every op
              "type kept in a table (cache_all for odd ids) and queried in turn (`SATC cacheid handle vars type`) with vars in "
              "{n-3..n+1, n+3, 63, 64, n+70, 128, 1021, 1023, 1100} (vars below the number of levels included), interleaved with "
              "gc / set_var_order / one adjacent level swap / add_vars / drop + gc + rebuild (node ids recycled while a cache still "
-             "maps them) / growth; satisfiable / valid; pick_cube_uniform on the kept F64 caches; samples of the 256 "
-             "three-variable functions counted with vars in 0..4; every value compared with the exact count of the value table "
+             "maps them) / growth; satisfiable / valid; pick_cube_uniform on the kept F64 caches; all 256 three-variable functions swept "
+             "per number type on one kept cache under a seed-chosen order (thorough: all 6) and samples of them counted with vars "
+             "in 0..4; a third of the cases also on the pointer-based manager build, a sixth on the debug-profile build; every value compared with the exact count of the value table "
              "(vars < levels: whenever the function depends on at most vars variables), with the extracted model's value, and "
              "the real cache map with the model's cache map after every call")
 KEPT_RELATION = ("C12: sat_count through a kept SatCountCache == exact count of the handle's value table == extracted sat_query "
@@ -479,6 +480,8 @@ def gen_kept_cases(ctx):
     for kind in DD_KINDS:
         for i in range(500 if thorough else 50):
             cases.append(c12scommon.case_kept(f"kc-{kind}-{i}", kind, rng, rounds=rng.randrange(4, 10)))
+        for oi, order in enumerate(ddgen.PERMS3 if thorough else [rng.choice(ddgen.PERMS3)]):
+            cases.append(c12scommon.case_kept_all3(f"ka-{kind}-{oi}", kind, order, rng))
         for i in range(30 if thorough else 4):
             cases.append(c12scommon.case_kept_small(f"ks-{kind}-{i}", kind, rng))
         for i in range(40 if thorough else 4):
@@ -493,11 +496,16 @@ def run_kept_stage(ctx):
     pcases = [("ptr-" + h, o) for i, (h, o) in enumerate(cases) if ctx.tier == "thorough" or i % 3 == 0]
     okp, badp, _ = c12scommon.run_stage(ctx, "C12", pcases, ["C12"], KEPT_RELATION + " (pointer-based manager build)",
                                         tag="-kept-ptr", harness=build_pointer(), config="kept-cache-pointer", with_corpus=False)
-    ok, bad = ok + okp, list(bad) + list(badp)
+    # ... and a sample on the debug-profile build (debug assertions and overflow checks of /repo active)
+    dcases = [("dbg-" + h, o) for i, (h, o) in enumerate(cases) if i % 6 == 1 and not h.startswith("ka-")]
+    okd, badd, _ = c12scommon.run_stage(ctx, "C12", dcases, ["C12"], KEPT_RELATION + " (debug-profile build)",
+                                        tag="-kept-dbg", harness=ddcommon.build_dd_debug(ctx), config="kept-cache-debug",
+                                        with_corpus=False)
+    ok, bad = ok + okp + okd, list(bad) + list(badp) + list(badd)
     if ctx.stats.get("c12s_unresolved", 0) and not bad:
         raise vf.CheckFailure(f"kept-cache stage: {ctx.stats['c12s_unresolved']} operations could not be resolved by the driver")
     g = lambda k: int(ctx.stats.get(k, 0)) - int(before.get(k, 0))
-    return {"kept_cases": len(cases), "kept_pointer_build_cases": len(pcases), "kept_cases_ok": ok, "kept_cases_bad": len(bad),
+    return {"kept_cases": len(cases), "kept_pointer_build_cases": len(pcases), "kept_debug_profile_cases": len(dcases), "kept_cases_ok": ok, "kept_cases_bad": len(bad),
             "kept_sat_queries_replayed": g("c12s_model_replayed"), "kept_cache_entries_compared": g("c12s_cache_entries"),
             "kept_snapshot_pairs_checked": g("c12s_obs_checked"), "kept_epoch_changes": g("c12s_epoch_changes"),
             "kept_queries_vars_below_levels": g("c12s_vars_below_levels"),
@@ -573,6 +581,8 @@ def replay(ctx, path):
         return c12scommon.replay(ctx, r)
     if r.get("config") == "kept-cache-pointer":
         return c12scommon.replay(ctx, r, harness=build_pointer())
+    if r.get("config") == "kept-cache-debug":
+        return c12scommon.replay(ctx, r, harness=ddcommon.build_dd_debug(ctx))
     if r.get("config") == POINTER_CFG:
         binp = build_pointer()
         _, drv = ddcommon.build_dd(ctx)
